@@ -104,7 +104,7 @@ func runCacheHistory(env *fw.Env, c CacheCase, withFaults bool, judgeMinimizeLat
 		return f
 	}
 	s, cc, fd := newCachedSUT(c.Cfg, withFaults)
-	defer s.Close()
+	defer func() { s.Close() }()
 	cur := gen.World{Model: c.World.Model, Tuples: append([]m.Tuple{}, c.World.Tuples...), Left: c.World.Left}
 	classes := append(semkit.ModelClasses(c.World.Model), "engine:"+c.Cfg.Engine)
 	hitSteps, faultedInside, hitAfterFault, staleWindow := 0, 0, 0, 0
@@ -133,6 +133,13 @@ func runCacheHistory(env *fw.Env, c CacheCase, withFaults bool, judgeMinimizeLat
 			classes = append(classes, "op:"+op.Kind)
 		case "yield":
 			time.Sleep(2 * time.Millisecond)
+		case "reset": // a fresh server: empty caches, same store
+			if !withFaults {
+				s.Close()
+				s, cc, fd = newCachedSUT(c.Cfg, false)
+				h0 = 0
+				classes = append(classes, "op:reset")
+			}
 		case "check":
 			ctx, cancel := context.WithCancel(context.Background())
 			faulted := withFaults && op.At > 0
@@ -285,3 +292,52 @@ func checkC08(env *fw.Env, c CacheCase) *fw.Failure { return runCacheHistory(env
 func TestC08(t *testing.T) { fw.Run(t, "C08", genC08, checkC08) }
 
 var _ = openfgav1.ConsistencyPreference_UNSPECIFIED
+
+// ---- C08 on cyclic data ------------------------------------------------------
+//
+// Worlds whose relations are mutually recursive and whose tuples form cycles;
+// one subject is asked about every (object, relation) of the cycle, in a drawn
+// order, so that later requests meet sub-results cached while an earlier
+// request was inside the cycle. A sub-result that was cut short by cycle
+// detection is only valid for the path it was computed on and must not be
+// served to a request that enters the cycle elsewhere. Oracle as for C08.
+
+func genC08Cycles(t *rapid.T) CacheCase {
+	o := worldOpts()
+	o.Leftovers = false
+	w := gen.CycleWorld(t, o)
+	c := CacheCase{World: w, Cfg: genCacheCfg(t, true, false)}
+	c.Cfg.CheckIter, c.Cfg.LOIter, c.Cfg.Shared = false, false, false
+	if rapid.Bool().Draw(t, "breadthOne") {
+		c.Cfg.Breadth = 1
+	}
+	first := gen.RequestFor(t, w, o)
+	first.Contextual = nil
+	if rapid.IntRange(0, 3).Draw(t, "subjectZero") > 0 {
+		first.User = "user:0"
+	}
+	rels := []string{"r0", "r1", "r2"}
+	// several short histories, each against empty caches: what a request leaves
+	// in the cache is then met by one or two other requests, not masked by many
+	for h, nh := 0, rapid.IntRange(1, 5).Draw(t, "nHistories"); h < nh; h++ {
+		if h > 0 {
+			c.Ops = append(c.Ops, QOp{Kind: "reset"})
+		}
+		for i, n := 0, rapid.IntRange(2, 4).Draw(t, "nOps"); i < n; i++ {
+			r := first
+			r.Object = fmt.Sprintf("group:%d", rapid.IntRange(0, o.MaxIDs-1).Draw(t, "obj"))
+			r.Relation = rels[rapid.IntRange(0, 2).Draw(t, "rel")]
+			if rapid.IntRange(0, 7).Draw(t, "otherSubject") == 0 {
+				r.User = gen.RequestFor(t, w, o).User
+			}
+			kind := "check"
+			if rapid.IntRange(0, 7).Draw(t, "batch") == 0 {
+				kind = "batch"
+			}
+			c.Ops = append(c.Ops, QOp{Kind: kind, Req: r})
+		}
+	}
+	return c
+}
+
+func TestC08Cycles(t *testing.T) { fw.Run(t, "C08", genC08Cycles, checkC08) }
